@@ -204,6 +204,7 @@ Ltac open_slot s :=
   destruct s as [st eni ty trunk x4 x6 inh fw dw reqs cap batch now held log];
   destruct x4 as [on4 set4 al4 dg4 cl4 gone4 un4]; destruct x6 as [on6 set6 al6 dg6 cl6 gone6 un6].
 Ltac break_step H :=
+  open_heads H;
   repeat match type of H with
   | context [match ?x with _ => _ end] => let E := fresh "E" in destruct x eqn:E; try discriminate H
   end.
@@ -240,6 +241,7 @@ Proof.
     intros t _. unfold fw_guard in E0. cbn in E0. split_andb. apply Z.leb_le. assumption.
   - break_step Hs. inversion Hs; subst; clear Hs. destruct HL as [L4 L6 Ll La Ln]. open_slot s. constructor; cbn in *; try assumption. intros t0 Hx; discriminate.
   - break_step Hs. inversion Hs; subst; clear Hs. destruct HL as [L4 L6 Ll La Ln]. open_slot s. constructor; cbn in *; try assumption. intros t0 Hx; discriminate.
+  - (* loop head without arming *) break_step Hs. inversion Hs; subst; clear Hs. destruct HL as [L4 L6 Ll La Ln]. open_slot s. constructor; cbn in *; try assumption. intros t0 Hx; subst; discriminate.
   - (* create begin *) break_step Hs. inversion Hs; subst; clear Hs. destruct HL as [L4 L6 Ll La Ln]. open_slot s. constructor; cbn in *; try assumption.
     + constructor; [exact I | exact Ll].
     + intros t0 Hx; discriminate.
